@@ -55,6 +55,10 @@ Definition fact_q (m : nat) : Qc := Q2Qc (Z.of_nat (fact m) # 1).
 Definition teneye_entry (m : nat) (i : idx) : Qc := (Q2Qc (Z.of_nat (teneye_count i) # 1) / fact_q m)%Qc.
 Definition teneye_agrees (m n : nat) (obs : dense Qc) : bool :=
   qden_matches tol9 (repeat n m) (teneye_entry m) obs.
+(* the closed form of the entry (C20Gen.teneye_formula / m!) against the observed tensor *)
+Definition teneye_entry_f (m : nat) (i : idx) : Qc := (Q2Qc (Z.of_nat (teneye_formula i) # 1) / fact_q m)%Qc.
+Definition teneye_formula_agrees (m n : nat) (obs : dense Qc) : bool :=
+  qden_matches tol9 (repeat n m) (teneye_entry_f m) obs.
 (* symmetric multiplication in all modes but the first: (A x^{m-1})_a = sum_{j} A[a :: j] * prod_k x[j_k] *)
 Definition qprodx (x : list Qc) (j : idx) : Qc := fold_right (fun k acc => (nth k x q0 * acc)%Qc) q1 j.
 Definition ttsv1 (A : dense Qc) (m n : nat) (x : list Qc) (a : nat) : Qc :=
@@ -67,26 +71,15 @@ Definition teneye_identity_ok (A : dense Qc) (m n : nat) (x : list Qc) : bool :=
 
 (* ---- whole-call checks for sptensor.from_function / sptenrand (request normalisation included) ---- *)
 Inductive sobs := SRej | SCrash | SOk (o : sparse Z).
-(* the trigger regions of the two OPEN findings, computed from the case itself:
-   C20-N3 — the request equals the tensor size: the code rejects what the property admits (impl None, spec Some);
-   A-46   — the FIRST captured draw has a repeated scaled row (only then can the redraw loop end short) *)
+(* the trigger region of the one OPEN finding, computed from the case itself:
+   C20-N3 — the request equals the tensor size: the code rejects what the property admits (impl None, spec Some) *)
 Definition n3_region (cnt_impl cnt_spec : option nat) : bool :=
   match cnt_impl, cnt_spec with None, Some _ => true | _, _ => false end.
-Definition a46_region (cnt_impl : option nat) (s : shape) (draws : list (list (list Z))) : bool :=
-  match cnt_impl, draws with
-  | Some nz, d :: _ => negb (Nat.eqb (length (cand s d)) nz)
-  | _, _ => false
-  end.
 (* pyttb must agree with the faithful model of the REPAIRED code (request normalisation, redraw loop on the captured
-   draws, raw stored lists, number of draws consumed; a zero count gives the empty tensor).  Only inside the trigger
-   region of an open finding is the property's own requirement accepted as an alternative (a repaired pyttb stays
-   silent there): well-formed, requested shape, exactly the requested number of nonzeros; inside the A-46 region also
-   the exact behaviour of the proposed repair (which can still end short when all ten draws together hold too few
-   distinct rows). *)
-(* the proposed repair of A-46 (union of all draws as a fallback, C20Gen.sprand_subs_union): raw equality + draws consumed *)
-Definition sprand_union_agrees (nz : nat) (s : shape) (draws : list (list (list Z))) (vals : list Z) (ndraws : nat)
-           (obs : sparse Z) : bool :=
-  sp_raw_eqb obs (mkSp s (sprand_subs_union nz s draws) vals) && Nat.eqb ndraws (sprand_consumed nz s draws).
+   draws with the union of all consumed draws as a fallback (repair of A-46), raw stored lists, number of draws
+   consumed; a zero count gives the empty tensor).  Only inside the trigger region of the open finding C20-N3 is the
+   property's own requirement accepted as an alternative (a repaired pyttb stays silent there): well-formed, requested
+   shape, exactly the requested number of nonzeros. *)
 Definition sprand_call_ok (cnt_impl cnt_spec : option nat) (s : shape) (draws : list (list (list Z))) (vals : list Z)
            (ndraws : nat) (obs : sobs) : bool :=
   match cnt_impl, obs with
@@ -94,15 +87,10 @@ Definition sprand_call_ok (cnt_impl cnt_spec : option nat) (s : shape) (draws : 
   | Some nz, SOk o => sprand_agrees nz s draws vals ndraws o
   | _, _ => false
   end
-  || ((n3_region cnt_impl cnt_spec || a46_region cnt_impl s draws) &&
+  || (n3_region cnt_impl cnt_spec &&
       match cnt_spec, obs with
       | None, SRej => true
       | Some nz, SOk o => sprand_spec nz s o
-      | _, _ => false
-      end)
-  || (a46_region cnt_impl s draws &&
-      match cnt_impl, obs with
-      | Some nz, SOk o => sprand_union_agrees nz s draws vals ndraws o
       | _, _ => false
       end).
 
